@@ -21,6 +21,7 @@ mod c12;
 mod c05;
 mod c04;
 mod c06;
+mod c10;
 mod common;
 mod dict;
 mod world;
@@ -69,6 +70,7 @@ fn main() {
         "C05" => c05::run(&mut run),
         "C04" => c04::run(&mut run),
         "C06" => c06::run(&mut run),
+        "C10" => c10::run(&mut run),
         _ => { eprintln!("unknown property {}", prop); std::process::exit(2); }
     }
     run.finish();
